@@ -74,9 +74,23 @@ def register_more(reg):
     C("torrentfile.utils.path_piece_length", props=["C12"], params={"path": "any"}, returns="int",
       ensures=[("C12", "auto_choice_range", "is_pow2(result) and 16384 <= result <= 16777216")],
       raises={"torrentfile.utils.MissingPathError": {}})
-    C("torrentfile.utils.filelist_total", props=[], params={"pathstring": "any"}, returns="tuple[nat,list]",
+    def _ft_post(p, bound, result):
+        # ghost: remember what the listing returned so that callers' clauses can refer to it (listed_files(), listed_total())
+        p.ghost["listed_total"], p.ghost["listed_files"] = result.items[0], result.items[1]
+        # every listed path is a regular file (no concurrent modification while creating): instantiated on element access
+        import z3
+        from pyvc.values import PV
+        from pyvc import fsmodel
+        fs = fsmodel.fs_of(p)
+        h = p.heap[result.items[1].rid]
+        X = h.seq
+        h.tag["elem_fact"] = lambda i, X=X, kind=fs.kind: z3.And(PV.is_PStr(X[i]), z3.Select(kind, PV.sval(X[i])) == 1)
+
+    C("torrentfile.utils.filelist_total", props=[], params={"pathstring": "any"}, returns="tuple[nat,list[str]]",
       spec_only=True,
-      ensures=[],
+      post_hook=_ft_post,
+      ensures=["implies(fs_isfile(pathstring), len(result[1]) == 1 and result[1][0] == as_str(pathstring) "
+               "and result[0] == len(fs_data(pathstring)))"],
       raises={"torrentfile.utils.MissingPathError": {}},
       notes="assumed here (verified under C01/C09): returns (total size, sorted file list)")
 
